@@ -481,6 +481,9 @@ func c01(c *ctx) {
 	for k := 0; k < nrt; k++ {
 		c01route(c, k)
 	}
+	for k := 0; k < 2; k++ {
+		c01staleTermination(c, k)
+	}
 	nsys := 6
 	if c.thorough() {
 		nsys = 60
